@@ -276,6 +276,10 @@ def _relevant(func: str, seq):
 
 
 def replay(ob, seed=0):
+    from contracts import rt_c12  # backup clauses (contracts/c12_backup_clauses.py): scenario-level replay with a history backup on a real file
+
+    if rt_c12.handles(ob.func):
+        return rt_c12.replay(ob, seed)
     if _is_ds_function(ob.func):
         return replay_ds(ob)
     tmp = Path(tempfile.mkdtemp(prefix="rt_c11."))
@@ -296,6 +300,10 @@ def replay(ob, seed=0):
 
 
 def rerun(w):
+    if "backup_config" in w:
+        from contracts import rt_c12
+
+        return rt_c12.rerun(w)
     try:
         r = run_ds(w["format"], tuple(w["variable_ids"])) if "variable_ids" in w else run(w["node"], tuple(w["sequence_ids"]))
     except Exception as e:  # noqa: BLE001
